@@ -16,6 +16,7 @@ import (
 
 type verifC08Builder struct {
 	target    int // occurrence that gets the symbolic case
+	target2   int // second occurrence with a symbolic case of its own (0 = none; occurrence 0 is never a second one)
 	n         int // occurrences seen so far
 	hit       string
 	jsonUpper bool // spell the keys of the JSON literals in mixed case (a definition-site case change)
@@ -28,13 +29,18 @@ func (b *verifC08Builder) jk(lower, mixed string) string {
 	return lower
 }
 
-// nm spells one occurrence of a name.
+// nm spells one occurrence of a name. The user-chosen names all contain the letters a and z, the
+// two ends of the range that case folding has to cover.
 func (b *verifC08Builder) nm(base string) string {
 	k := b.n
 	b.n++
 	if k == b.target {
 		b.hit = base
 		return verifCased("case", base)
+	}
+	if b.target2 > 0 && k == b.target2 {
+		b.hit += " + " + base
+		return verifCased("case2", base)
 	}
 	return base
 }
@@ -43,36 +49,36 @@ func (b *verifC08Builder) build() *yaml.Node {
 	s := yScalar
 	step := func(kv ...*yaml.Node) *yaml.Node { return yMap(kv...) }
 	wfCall := yMap(
-		s("inputs"), yMap(s(b.nm("inone")), yMap(s("type"), s("string"))),
-		s("secrets"), yMap(s(b.nm("secone")), yMap(s("required"), yTagged("!!bool", "false"))),
-		s("outputs"), yMap(s(b.nm("outone")), yMap(s("value"), s("${{ "+b.nm("jobs")+"."+b.nm("jobone")+".outputs."+b.nm("jout")+" }}"))),
+		s("inputs"), yMap(s(b.nm("inaz")), yMap(s("type"), s("string"))),
+		s("secrets"), yMap(s(b.nm("secaz")), yMap(s("required"), yTagged("!!bool", "false"))),
+		s("outputs"), yMap(s(b.nm("outaz")), yMap(s("value"), s("${{ "+b.nm("jobs")+"."+b.nm("jobaz")+".outputs."+b.nm("jzout")+" }}"))),
 	)
 	job1 := yMap(
 		s("runs-on"), s("ubuntu-latest"),
-		s("outputs"), yMap(s(b.nm("jout")), s("${{ "+b.nm("steps")+"."+b.nm("sid")+".outputs.x }}")),
+		s("outputs"), yMap(s(b.nm("jzout")), s("${{ "+b.nm("steps")+"."+b.nm("sidz")+".outputs.x }}")),
 		s("strategy"), yMap(s("matrix"), yMap(
-			s(b.nm("mrow")), ySeq(yTagged("!!int", "1"), yTagged("!!int", "2")),
-			s(b.nm("mobj")), ySeq(yMap(s(b.nm("okey")), s("p"), s("other"), s("q")), yMap(s(b.nm("okey")), s("r"), s("other"), s("q"))),
-			s("include"), ySeq(yMap(s(b.nm("minc")), yTagged("!!int", "3"))),
-			s("exclude"), ySeq(yMap(s(b.nm("mobj")), yMap(s(b.nm("okey")), s("p")))),
+			s(b.nm("mzrow")), ySeq(yTagged("!!int", "1"), yTagged("!!int", "2")),
+			s(b.nm("mzobj")), ySeq(yMap(s(b.nm("ozkey")), s("p"), s("other"), s("q")), yMap(s(b.nm("ozkey")), s("r"), s("other"), s("q"))),
+			s("include"), ySeq(yMap(s(b.nm("mzinc")), yTagged("!!int", "3"))),
+			s("exclude"), ySeq(yMap(s(b.nm("mzobj")), yMap(s(b.nm("ozkey")), s("p")))),
 		)),
 		s("steps"), ySeq(
-			step(s("id"), s(b.nm("sid")), s("run"), s("echo ${{ "+b.nm("inputs")+"."+b.nm("inone")+" }} ${{ "+b.nm("secrets")+"."+b.nm("secone")+" }} ${{ "+b.nm("matrix")+"."+b.nm("mrow")+" }} ${{ matrix."+b.nm("minc")+" }} ${{ inputs."+b.nm("dinone")+" }}")),
-			step(s("run"), s("echo ${{ steps."+b.nm("sid")+".outputs.x }} ${{ "+b.nm("env")+"."+b.nm("envkey")+" }}"), s("env"), yMap(s(b.nm("envkey")), s("v"))),
+			step(s("id"), s(b.nm("sidz")), s("run"), s("echo ${{ "+b.nm("inputs")+"."+b.nm("inaz")+" }} ${{ "+b.nm("secrets")+"."+b.nm("secaz")+" }} ${{ "+b.nm("matrix")+"."+b.nm("mzrow")+" }} ${{ matrix."+b.nm("mzinc")+" }} ${{ inputs."+b.nm("dinaz")+" }}")),
+			step(s("run"), s("echo ${{ steps."+b.nm("sidz")+".outputs.x }} ${{ "+b.nm("env")+"."+b.nm("envzkey")+" }}"), s("env"), yMap(s(b.nm("envzkey")), s("v"))),
 			step(s("run"), s("echo ${{ "+b.nm("github")+"."+b.nm("sha")+" }} ${{ github['"+b.nm("ref")+"'] }} ${{ "+b.nm("contains")+"('a', 'b') }} ${{ "+b.nm("tojson")+"(github."+b.nm("event")+"."+b.nm("repository")+"['"+b.nm("name")+"']) }}")),
 			step(s("run"), s("echo ${{ fromJSON('{\""+b.jk("foo", "Foo")+"\": {\""+b.jk("bar", "BAR")+"\": 1}}')."+b.nm("foo")+"."+b.nm("bar")+" }} ${{ fromJSON('{\""+b.jk("foo", "Foo")+"\": 1}')['"+b.nm("foo")+"'] }}")),
 			step(s("uses"), s("actions/checkout@v4"), s("with"), yMap(s(b.nm("ref")), s("x"))),
-			step(s("run"), s("echo ${{ matrix."+b.nm("mobj")+"."+b.nm("okey")+" }} ${{ matrix.mobj['"+b.nm("okey")+"'] }}")),
+			step(s("run"), s("echo ${{ matrix."+b.nm("mzobj")+"."+b.nm("ozkey")+" }} ${{ matrix.mzobj['"+b.nm("ozkey")+"'] }}")),
 		),
 	)
 	job2 := yMap(
-		s("needs"), ySeq(s(b.nm("jobone"))),
+		s("needs"), ySeq(s(b.nm("jobaz"))),
 		s("runs-on"), s("ubuntu-latest"),
-		s("steps"), ySeq(step(s("run"), s("echo ${{ "+b.nm("needs")+"."+b.nm("jobone")+".outputs."+b.nm("jout")+" }}"))),
+		s("steps"), ySeq(step(s("run"), s("echo ${{ "+b.nm("needs")+"."+b.nm("jobaz")+".outputs."+b.nm("jzout")+" }}"))),
 	)
 	return yDoc(yMap(
-		s("on"), yMap(s("workflow_call"), wfCall, s("workflow_dispatch"), yMap(s("inputs"), yMap(s(b.nm("dinone")), yMap(s("type"), s("string"))))),
-		s("jobs"), yMap(s(b.nm("jobone")), job1, s("jobtwo"), job2),
+		s("on"), yMap(s("workflow_call"), wfCall, s("workflow_dispatch"), yMap(s("inputs"), yMap(s(b.nm("dinaz")), yMap(s("type"), s("string"))))),
+		s("jobs"), yMap(s(b.nm("jobaz")), job1, s("jobtwo"), job2),
 	))
 }
 
@@ -188,7 +194,9 @@ func HarnessC08Diagnosed() {
 			s(nm("k6", "loop")), yMap(s("needs"), ySeq(s("loop")), s("runs-on"), s("ubuntu-latest"), s("steps"), ySeq(yMap(s("run"), s("echo ${{ needs.loop.result }}")))),
 			s("use"), yMap(s("needs"), ySeq(s("call")), s("runs-on"), s("ubuntu-latest"), s("steps"), ySeq(
 				yMap(s("run"), s("echo ${{ needs.call.outputs."+nm("k4", "result")+" }} ${{ needs.call.outputs.nope }}")),
-				yMap(s("uses"), s("actions/checkout@v4"), s("with"), yMap(s(nm("k5", "ref")), s("x"), s("nope"), s("y"))),
+				yMap(s("uses"), s("actions/checkout@v4"), s("with"), yMap(s(nm("k5", "ref")), s("x"), s("nope"), s("y"), s(nm("k12", "args")), s("z"), s(nm("k13", "entrypoint")), s("e"))),
+				yMap(s("id"), s(nm("k10", "get_tag")), s("run"), s("echo")),
+				yMap(s("id"), s(nm("k11", "get_tag")), s("run"), s("echo")),
 				yMap(s("run"), s("echo ${{ "+nm("k7", "startswith")+"(github.event.pull_request.title, 'x') }} ${{ "+nm("k8", "contains")+"(github.event.issue.body, 'y') }} ${{ github.event.issue.title }}")),
 			)),
 			s("lab"), yMap(s("runs-on"), s("${{ matrix.os }}"), s("strategy"), yMap(s("matrix"), yMap(s("include"), ySeq(yMap(s(nm("k9", "os")), s("ubuntu-oldest"))))),
@@ -196,11 +204,139 @@ func HarnessC08Diagnosed() {
 		)))
 		verifPlace(doc, 1, 0)
 		la := NewLocalActionsCache(nil, nil)
-		return verifLintNode(doc, []Rule{NewRuleWorkflowCall("/r/.github/workflows/w.yml", cache), NewRuleExpression(la, cache), NewRuleAction(la), NewRuleJobNeeds(), NewRuleRunnerLabel()})
+		return verifLintNode(doc, []Rule{NewRuleWorkflowCall("/r/.github/workflows/w.yml", cache), NewRuleExpression(la, cache), NewRuleAction(la), NewRuleJobNeeds(), NewRuleRunnerLabel(), NewRuleID()})
 	}
 	e0 := mk(false)
 	errs := mk(true)
 	verifReach("variant")
 	verifCheckf(len(e0) >= 3, "baseline-lost-its-diagnostics", verifErrTextConc(e0))
 	verifCheckf(verifSamePositions(e0, errs), "case-change-changes-diagnostics", verifErrTextConc(errs))
+}
+
+// HarnessC08CasePairs: as HarnessC08Case with two occurrences (every pair
+// k1 < k2 of the template's name occurrences) spelled with independent
+// symbolic letter cases, e.g. a definition and one of its uses in different
+// mixed spellings.
+func HarnessC08CasePairs() {
+	total := verifC08Occurrences()
+	base := (&verifC08Builder{target: -1}).build()
+	verifPlace(base, 1, 0)
+	e0 := verifLintNode(base, verifRulesNoDeprecated())
+	k1 := verifChoose("first", total-1)
+	k2 := k1 + 1 + verifChoose("second", total-1)
+	if k2 >= total {
+		verifReach("variant")
+		return
+	}
+	b := &verifC08Builder{target: k1, target2: k2}
+	doc := b.build()
+	verifPlace(doc, 1, 0)
+	errs := verifLintNode(doc, verifRulesNoDeprecated())
+	verifReach("variant")
+	verifCheckf(len(e0) == 0, "baseline-not-clean", verifErrTextConc(e0))
+	verifCheckf(verifSamePositions(e0, errs), "case-change-changes-diagnostics", b.hit+": "+verifFirstKind(errs))
+}
+
+// verifUpperExprs upper-cases everything inside the ${{ }} placeholders of s
+// except string literals and the keywords true / false / null.
+func verifUpperExprs(s string) string {
+	out := []byte{}
+	i := 0
+	for i < len(s) {
+		k := strings.Index(s[i:], "${{")
+		if k < 0 {
+			out = append(out, s[i:]...)
+			break
+		}
+		out = append(out, s[i:i+k+3]...)
+		i += k + 3
+		// inside a placeholder up to the closing }} (quotes may hide one)
+		for i < len(s) {
+			c := s[i]
+			if c == '\'' {
+				j := i + 1
+				for j < len(s) {
+					if s[j] == '\'' {
+						if j+1 < len(s) && s[j+1] == '\'' {
+							j += 2
+							continue
+						}
+						break
+					}
+					j++
+				}
+				if j >= len(s) {
+					j = len(s) - 1
+				}
+				out = append(out, s[i:j+1]...)
+				i = j + 1
+				continue
+			}
+			if c == '}' && i+1 < len(s) && s[i+1] == '}' {
+				out = append(out, '}', '}')
+				i += 2
+				break
+			}
+			if c >= 'a' && c <= 'z' || c >= 'A' && c <= 'Z' || c == '_' {
+				j := i
+				for j < len(s) && (s[j] >= 'a' && s[j] <= 'z' || s[j] >= 'A' && s[j] <= 'Z' || s[j] >= '0' && s[j] <= '9' || s[j] == '_' || s[j] == '-') {
+					j++
+				}
+				w := s[i:j]
+				if w != "true" && w != "false" && w != "null" {
+					w = strings.ToUpper(w)
+				}
+				out = append(out, w...)
+				i = j
+				continue
+			}
+			if c >= '0' && c <= '9' {
+				j := i
+				for j < len(s) && (s[j] >= '0' && s[j] <= '9' || s[j] >= 'a' && s[j] <= 'z' || s[j] >= 'A' && s[j] <= 'Z' || s[j] == '.' || s[j] == '+' || s[j] == '-') {
+					j++
+				}
+				out = append(out, s[i:j]...) // number literals stay as written
+				i = j
+				continue
+			}
+			out = append(out, c)
+			i++
+		}
+	}
+	return string(out)
+}
+
+func verifUpperExprsIn(n *yaml.Node) int {
+	c := 0
+	if n.Kind == yaml.ScalarNode && strings.Contains(n.Value, "${{") {
+		v := verifUpperExprs(n.Value)
+		if v != n.Value {
+			n.Value = v
+			c++
+		}
+	}
+	for _, ch := range n.Content {
+		c += verifUpperExprsIn(ch)
+	}
+	return c
+}
+
+// HarnessC08Testdata: every clean workflow of the repository's testdata
+// (compiled in at run time) with all names inside all ${{ }} placeholders
+// — contexts, properties, functions — written in upper case (string literals,
+// number literals and true / false / null untouched) still lints clean.
+func HarnessC08Testdata() {
+	src := verifCorpusFiles[verifChoose("file", len(verifCorpusFiles))]
+	if len(verifLintNode(verifParseYAML(src), verifRulesNoDeprecated())) > 0 {
+		verifReach("not-clean")
+		return
+	}
+	doc := verifParseYAML(src)
+	if verifUpperExprsIn(doc) == 0 {
+		verifReach("no-placeholder")
+		return
+	}
+	errs := verifLintNode(doc, verifRulesNoDeprecated())
+	verifReach("variant")
+	verifCheckf(len(errs) == 0, "case-change-changes-diagnostics", verifErrTextConc(errs))
 }
